@@ -330,7 +330,82 @@ def r04_6(run):
                f"iterates {srcn}" + (" (the tensor this placeholder mirrors)" if mirror else "") if (same or mirror) else
                f"the new list is built from `{srcn}`, another tensor's children: every sibling view of `{owner}` that is not in that list is dropped "
                f"from the family and no longer follows in-place updates of the base")
+        # a rebuild that *swaps one member* (`w if w is not X else Y`) must address the list X is a member of.  Tensor._op registers a view in
+        # its direct parent's list (parent_var._view_children.append(out)) -- the operand of the view's creator -- not in its base's list; for a view
+        # of a view the two differ
+        swaps = [x for x in comps if isinstance(x, ast.IfExp) and isinstance(x.test, ast.Compare) and len(x.test.ops) == 1
+                 and isinstance(x.test.ops[0], (ast.Is, ast.IsNot, ast.Eq, ast.NotEq))]
+        if swaps and fi is not None and isinstance(t.value, ast.Name):
+            from ..cfg import CFG, ENTRY, reaching_defs
+            cfg = CFG(fi.node)
+            at = cfg.node_for(st)
+            defs = reaching_defs(cfg, t.value.id, at) if at is not None else []
+            texts = [norm(getattr(cfg.stmt[d], "value", None) or ast.Constant(0)) if d != ENTRY else "<parameter>" for d in defs]
+            okp = bool(texts) and all(tx.replace("._creator", ".creator").endswith(".creator.variables[0]") for tx in texts)
+            run.ob("R04.6", loc(mod, st), fn, f"member swap in {owner}._view_children addresses the swapped tensor's direct parent", okp,
+                   f"{owner} = {texts[0]}: the operand of the view's creator, whose list holds the view" if okp else
+                   f"{owner} = {texts[0] if texts else '?'}: not the operand of the view's creator.  A view is listed by its direct parent; for a view of a "
+                   f"view the base's list does not contain it, so the swap does nothing and the parent keeps pointing at the stale tensor -- later "
+                   f"in-place updates replay the wrong view chain")
     run.count("wholesale rebuilds of _view_children", n)
+
+
+_MAY_COPY_CONVERTERS = {"asarray", "array", "asanyarray", "ascontiguousarray", "asfortranarray", "astype", "copy", "require"}
+
+
+def r04_7(run):
+    """a view op hands its operand's array to the NumPy kernel as it is.  For ops that declare can_return_view, NumPy decides whether the result
+    shares memory with the operand; a conversion of the operand on the way (np.asarray(x, order=...), ascontiguousarray, .copy(), .astype())
+    copies non-contiguous / differently typed operands, so the result silently stops being a view exactly for those layouts (base None, no
+    shared memory, later in-place updates are not seen) while NumPy's namesake still returns a view."""
+    n = 0
+    for c in run.project.concrete_ops():
+        la = c.lookup_attr("can_return_view")
+        if la is None or not (isinstance(la[1], ast.Constant) and la[1].value is True):
+            continue
+        m = c.lookup_method("__call__")
+        if m is None:
+            continue
+        n += 1
+        # names carrying operand data: <param>.data, self.variables, and locals bound from them
+        carriers = set()
+        changed = True
+        def carries(e):
+            return any((isinstance(x, ast.Attribute) and x.attr == "data") or (isinstance(x, ast.Name) and x.id in carriers) for x in ast.walk(e))
+        while changed:
+            changed = False
+            for st in own_nodes(m.node):
+                if isinstance(st, ast.comprehension) and carries(st.iter):
+                    for x in ast.walk(st.target):
+                        if isinstance(x, ast.Name) and x.id not in carriers:
+                            carriers.add(x.id)
+                            changed = True
+                if isinstance(st, ast.Assign) and carries(st.value):
+                    for t_ in st.targets:
+                        for x in ast.walk(t_):
+                            if isinstance(x, ast.Name) and x.id not in carriers:
+                                carriers.add(x.id)
+                                changed = True
+        bad = None
+        for call in own_nodes(m.node):
+            if not isinstance(call, ast.Call):
+                continue
+            d = dotted(call.func) or ""
+            leaf = d.split(".")[-1] if d else (call.func.attr if isinstance(call.func, ast.Attribute) else "")
+            if leaf not in _MAY_COPY_CONVERTERS:
+                continue
+            is_np = d.split(".")[0] in ("np", "numpy")
+            subject = call.args[0] if (is_np and call.args) else (call.func.value if isinstance(call.func, ast.Attribute) and not is_np else None)
+            if subject is not None and carries(subject):
+                if leaf in ("asarray", "asanyarray") and not call.keywords:
+                    continue  # no dtype / order requested: returns the array itself
+                bad = call
+                break
+        run.ob("R04.7", loc(m, bad if bad is not None else m.node), m.short, f"{c.name}: operand arrays reach the view kernel unconverted", bad is None,
+               "no may-copy conversion between <operand>.data and the kernel" if bad is None else
+               f"`{norm(bad)[:70]}` may copy the operand before the kernel sees it: for the layouts it copies, the result is no longer a view of the "
+               f"operand although NumPy's own call returns one")
+    run.count("view ops scanned for operand conversions", n)
 
 
 def check(run):
@@ -348,3 +423,5 @@ def check(run):
     run.do(r04_4)
     run.do(r04_5)
     run.do(r04_6)
+    run.rule("R04.7", "ops that can return views hand their operands' arrays to the NumPy kernel unconverted", floor=10)
+    run.do(r04_7)
